@@ -1,16 +1,16 @@
 #!/bin/sh
-# usage: lib/seedverify.sh <ID> <demo-kind: quill|bin> [test filter]
+# usage: [SUB=a] lib/seedverify.sh <ID> <demo-kind: crate dir|bin> [test filter]   (SUB: results under out/$SUB instead of out)
 # Confirms a seeded change in its scratch worktree /tmp/seed-<ID>: suite green with the patch, demonstration fails with it and
 # passes without it.  Prints one line per step.
 ID="$1"; KIND="$2"; FILTER="${3:-}"
-W=/tmp/seed-$ID; export CARGO_TARGET_DIR=$W/target
+W=/tmp/seed-$ID; export CARGO_TARGET_DIR=$W/target; O=out${SUB:+/$SUB}
 cd $W || exit 2
-put_demo() { if [ "$KIND" = "bin" ]; then python3 out/apply_demo.py >/dev/null; else cp out/demo.rs $KIND/tests/seed_demo.rs; fi; }
+put_demo() { if [ "$KIND" = "bin" ]; then python3 $O/apply_demo.py >/dev/null; else mkdir -p $KIND/tests; cp $O/demo.rs $KIND/tests/seed_demo.rs; fi; }
 run_demo() { if [ "$KIND" = "bin" ]; then cargo test --offline -j 6 --bin feather-build-rs $FILTER 2>&1 | grep -E "^test result" | tail -1; else cargo test -p $KIND --test seed_demo --offline -j 6 2>&1 | grep -E "^test result" | tail -1; fi; }
 git checkout -q -- . ; rm -f */tests/seed_demo.rs
 put_demo; echo "demo without patch: $(run_demo)"
 git checkout -q -- . ; rm -f */tests/seed_demo.rs
-git apply out/patch.diff || exit 2
+git apply $O/patch.diff || exit 2
 echo "suite with patch: $(cargo test --workspace --no-fail-fast --offline -j 6 2>&1 | grep -E '^test result' | awk '{p+=$4; f+=$6} END {print p " passed, " f " failed"}')"
 put_demo; echo "demo with patch: $(run_demo)"
 git checkout -q -- . ; rm -f */tests/seed_demo.rs
